@@ -47,6 +47,7 @@ type PlayRec struct {
 	File    hx.B     `json:"file"` // the SMF bytes (enough to re-execute the play alone)
 	Sel     []int    `json:"sel"`
 	Ports   []PortKV `json:"ports"`
+	Prior   []PortKV `json:"prior"`  // a port map the SAME TracksReader was played with before the judged play ([] = fresh reader)
 	Tracks  [][]Ev   `json:"tracks"` // as read back by the library, all tracks
 	Sends   []Send   `json:"sends"`
 	Rerr    string   `json:"rerr"`    // reader error ("" = none)
@@ -126,6 +127,20 @@ func runPlay(rec *PlayRec) {
 		rec.Rerr = rd.Error().Error()
 		return
 	}
+	if rec.Prior == nil {
+		rec.Prior = []PortKV{}
+	}
+	if len(rec.Prior) > 0 { // an earlier play of the same reader with another map: nothing of it may leak into the judged play
+		plog := &playLog{t0: time.Now()}
+		pouts := map[int]drivers.Out{}
+		for _, kv := range rec.Prior {
+			pouts[kv.Tr] = &fakeOut{id: kv.Port, log: plog, open: true}
+		}
+		if pp := hx.Catch(func() { rd.MultiPlay(pouts) }); pp != "" {
+			rec.Panic = "prior play: " + pp
+			return
+		}
+	}
 	lg := &playLog{}
 	outs := map[int]drivers.Out{}
 	var single *fakeOut
@@ -167,6 +182,7 @@ func runPlay(rec *PlayRec) {
 // ---- generator ------------------------------------------------------------------------------------------
 
 type gen struct {
+	many bool // many-track file: only distinguishable messages, so that explaining the sends stays linear for TLC
 	r    *rand.Rand
 	ctr  int
 	pool [][]byte // channel messages already used somewhere in this file (for deliberate duplicates)
@@ -216,7 +232,7 @@ func (g *gen) message(track int) []byte {
 		default:
 			return smf.MetaTimeSig(3, 4, 24, 8)
 		}
-	case x < 0.15:
+	case x < 0.15 && !g.many:
 		g.feat["sysex"] = true
 		k := g.r.Intn(5)
 		d := make([]byte, k)
@@ -224,7 +240,7 @@ func (g *gen) message(track int) []byte {
 			d[i] = byte(g.r.Intn(128))
 		}
 		return midi.SysEx(d)
-	case x < 0.30 && len(g.pool) > 0:
+	case x < 0.30 && len(g.pool) > 0 && !g.many:
 		g.feat["duplicate_msg"] = true
 		return g.pool[g.r.Intn(len(g.pool))]
 	}
@@ -284,6 +300,12 @@ func (g *gen) file(rec *PlayRec) {
 	g.feat = map[string]bool{}
 	g.pool = nil
 	ntr := 1 + r.Intn(6)
+	g.many = false
+	if r.Intn(15) == 0 { // more tracks than a machine word has bits
+		ntr = 64 + r.Intn(8)
+		g.many = true
+		g.feat["many_tracks"] = true
+	}
 	res := hx.Pick(r, 96, 480, 960, 960)
 	bpm := float64(hx.Pick(r, 600, 900, 1200))
 	noTempo := r.Intn(8) == 0
@@ -305,7 +327,7 @@ func (g *gen) file(rec *PlayRec) {
 	// "twin" tracks start with the same run of channel messages on tick 0: on a shared port the observer
 	// cannot tell which track a send came from, and a wrong guess only fails some sends later
 	var twin [][]byte
-	if ntr > 1 && r.Intn(3) == 0 {
+	if ntr > 1 && !g.many && r.Intn(3) == 0 {
 		g.feat["twin_prefix"] = true
 		for i := 2 + r.Intn(4); i > 0; i-- {
 			twin = append(twin, g.freshChan())
@@ -340,6 +362,9 @@ func (g *gen) file(rec *PlayRec) {
 		}
 		if pat == "heavy" && n < 14 {
 			n = 14 + r.Intn(20)
+		}
+		if ntr > 10 {
+			n = r.Intn(3)
 		}
 		d := g.deltas(pat, t, ntr, n, budget)
 		run := 0
@@ -442,6 +467,18 @@ func (g *gen) file(rec *PlayRec) {
 		g.feat["mode_play"] = true
 		rec.Mode = "play"
 		rec.Ports = append(rec.Ports, PortKV{-1, 60})
+	}
+	rec.Prior = []PortKV{}
+	if r.Intn(5) == 0 { // the same reader has been played before, with another map (other tracks mapped, other ports)
+		g.feat["prior_play"] = true
+		for t := 0; t < ntr; t++ {
+			if r.Intn(2) == 0 {
+				rec.Prior = append(rec.Prior, PortKV{t, 80 + t%4})
+			}
+		}
+		if r.Intn(2) == 0 || len(rec.Prior) == 0 {
+			rec.Prior = append(rec.Prior, PortKV{-1, 88})
+		}
 	}
 	rec.Feat = []string{}
 	for k := range g.feat {
